@@ -150,6 +150,9 @@ func (e *Engine) mergeable(fn *ssa.Function) bool {
 }
 
 func (e *Engine) callFn(st *State, fn *ssa.Function, args []Value, bind []Value, site ssa.Instruction) []Outcome {
+	if e.stop.Load() {
+		panic(pathEnd{"deadline"})
+	}
 	if h := e.findIntrinsic(fn); h != nil {
 		e.rep.Intrinsics[fn.String()]++
 		return h(e, st, fn, args, site)
@@ -204,6 +207,9 @@ func (e *Engine) callFn(st *State, fn *ssa.Function, args []Value, bind []Value,
 			}
 		}
 		outs = live
+	}
+	if mergeOK && len(outs) > e.bound("merge_max", 24) {
+		mergeOK = false // merging very many outcomes costs more than it saves
 	}
 	if mergeOK && len(outs) > 1 {
 		e.mergeLoss = false
